@@ -55,6 +55,7 @@ type tr struct {
 	ifaces    map[string]*ast.InterfaceType
 	named     map[string]ast.Expr // type X <not a struct, not an interface>
 	constIota map[string]int      // position of a constant in its const block
+	renamed   []string            // fields matched to the anchored layout under another name
 	aux       map[string]bool     // helpers: translated because a listed function calls them
 	cur       *fn                 // the function being translated
 }
@@ -214,6 +215,7 @@ func (t *tr) record(name string) {
 	if len(fs) == 0 {
 		t.fail(t.structs[name], "struct %s without representable fields", name)
 	}
+	fs = t.anchor(name, fs)
 	t.recs[name] = fs
 	t.recOrder = append(t.recOrder, name)
 }
@@ -227,6 +229,59 @@ func mapType(ty string) (val, lookup, update string, ok bool) {
 		return unparen(strings.TrimPrefix(ty, "balist ")), "blookup", "bupdate", true
 	}
 	return "", "", "", false
+}
+
+// anchor renames and reorders the fields of a struct to the layout its lemmas were written against (units.go,
+// layouts): matched by name, then — for what is left over on both sides — in order, if the types agree.
+func (t *tr) anchor(name string, fs []field) []field {
+	lay, ok := layouts[t.unit.name+"."+name]
+	if !ok {
+		return fs
+	}
+	type slot struct{ name, typ string }
+	var want []slot
+	for _, p := range strings.Split(lay, ", ") {
+		nt := strings.SplitN(p, ":", 2)
+		want = append(want, slot{nt[0], nt[1]})
+	}
+	out := make([]*field, len(want))
+	used := map[int]bool{}
+	for i, w := range want {
+		for j := range fs {
+			if !used[j] && fs[j].goName == w.name && fs[j].typ == w.typ {
+				out[i], used[j] = &fs[j], true
+			}
+		}
+	}
+	j := 0
+	for i, w := range want { // renamed fields: the next unmatched field of the struct, if it has the type of the slot
+		if out[i] != nil {
+			continue
+		}
+		for j < len(fs) && used[j] {
+			j++
+		}
+		if j < len(fs) && fs[j].typ == w.typ {
+			out[i], used[j] = &fs[j], true
+		}
+	}
+	var res []field
+	for i, w := range want {
+		if out[i] != nil {
+			f := *out[i]
+			if f.goName != w.name {
+				t.renamed = append(t.renamed, name+"."+f.goName+" is "+w.name+" of the anchored layout")
+			}
+			f.coq = name + "_" + w.name
+			res = append(res, f)
+		}
+	}
+	for j := range fs { // fields the layout does not know
+		if !used[j] {
+			res = append(res, fs[j])
+		}
+	}
+	return res
 }
 
 func (t *tr) zero(ty string) string {
